@@ -22,7 +22,7 @@ RULE = ("(names) Hypothesis expression trees over a confusable vocabulary (names
         "malformed, equal up to spaces) x {parse, evaluator}, each sequence run in a forked child of a process that "
         "never parsed; every call's outcome (names, value, or error type+message) must equal the outcome of the same "
         "call made first in a pristine process and, for parse, on a freshly constructed MathParser. Non-trivial iff a "
-        "failing call precedes a succeeding one or a cache key repeats. (history-inf) EXHAUSTIVE sequences of length <= 3 over 6 strings (three overflowing constants, one 120-deep nesting that dies with RecursionError) x {evaluator, evaluator with allow_inf=True, parse}. (random) longer sequences (<= 40 calls incl. "
+        "failing call precedes a succeeding one or a cache key repeats. (history-inf) EXHAUSTIVE sequences of length <= 3 over 6 strings (three overflowing constants, one 120-deep nesting that dies with RecursionError) x {evaluator, evaluator with allow_inf=True, parse}, plus all pairs over 8 strings x {evaluator, allow_inf evaluator, parse, FormulaGrader call}. (random) longer sequences (<= 40 calls incl. "
         "FormulaGrader calls) over generated strings. Distinct by spec hash.")
 ASSUMPTIONS = ["pool workers are forked from a parent that has imported the library but never parsed (the parser cache "
                "is empty after import); each history case runs in its own forked child, so cases do not see each other",
@@ -286,15 +286,26 @@ def judge_history(spec, rec):
 # inside pyparsing (not a ParseException); whatever the parser collected before must not leak into the next string
 DEEP = 'sin(z)+' + '(' * 120 + '1' + ')' * 120
 INF_EVENTS = [(op, s) for op in 'eip' for s in ['1e999', '1e308*10', '[1, 1e999]', 'x+y', '2', DEEP]]
+# pairs only, over a wider alphabet: + grading by a FormulaGrader ('g'; 'sin(0)+x+y' is graded correct, so the
+# post-evaluation validators run on the cached expression's name sets), + a failing allow_inf evaluation ('1/0')
+# followed by an overflow inside numpy ('sin(1e200)*0+1e200*1e200' stays in Python, 'f(1e200)*1e200' too: the numpy
+# route is 'sin(x)+[1e200,1]*1e200')
+INF_EVENTS2 = [(op, s) for op in 'eipg' for s in ['1e999', 'x+y', 'sin(0)+x+y', '1/0', '[1e200,1]*1e200',
+                                                    'sin(y)+z', '2', 'f(x)+sin(0)']]
 
 
 def items_history_inf(tier):
     for L in range(1, 4):
         for seq in itertools.product(range(len(INF_EVENTS)), repeat=L):
             yield {'seq': list(seq)}
+    for L in (1, 2):
+        for seq in itertools.product(range(len(INF_EVENTS2)), repeat=L):
+            yield {'seq2': list(seq)}
 
 
 def judge_history_inf(spec, rec):
+    if 'seq2' in spec:
+        return judge_sequence([INF_EVENTS2[i] for i in spec['seq2']], rec, 'history')
     return judge_sequence([INF_EVENTS[i] for i in spec['seq']], rec, 'history')
 
 
